@@ -458,15 +458,21 @@ func (e *trieEnv) proveChecks(h *handle, name string, content map[string]interfa
 			e.fail("property", true, "prove:dropped-accepted", fmt.Sprintf("proof of %s with node %d removed still verifies", name, i), nil, nil)
 		}
 	}
-	// a proof never verifies against the root of a different content
+	// against the root of ANOTHER committed content the same node list either fails to verify or - when that root
+	// happens to be one of the nodes (a sub-trie of this content can be the whole trie of another) - yields what
+	// that other content holds for the key
 	for c, r := range e.roots {
 		if r != root {
 			v5, _, err5 := trie.VerifyProof(r, h.proofKey(key), pdb)
 			rep.Checks++
-			if err5 == nil && len(nodes) > 0 {
-				e.fail("property", true, "prove:wrong-root", "proof verifies against the root of another content "+c, nil, hex.EncodeToString(v5))
+			if err5 == nil {
+				var other map[string]interface{}
+				json.Unmarshal([]byte(c), &other)
+				if w5 := e.vals[mbt.Int(other[name])]; !bytes.Equal(v5, w5) {
+					e.fail("property", true, "prove:wrong-root", "proof verifies against the root of another content "+c+" with a value that content does not hold", hex.EncodeToString(w5), hex.EncodeToString(v5))
+				}
+				rep.Count("proofs_valid_for_other_root")
 			}
-			break
 		}
 	}
 }
